@@ -1713,6 +1713,130 @@ def rebuild_stream(ctx):
                     ctx.case(nontrivial_key=f"{binder}{free}{fsize}{label}{mode}" if outs.get(False) == "value" and binder == free else None)
 
 
+PAIRS_PY = """import numpy as np
+from collections import OrderedDict
+import funsor, funsor.ops as ops
+from funsor.domains import Bint
+from funsor.tensor import Tensor
+from funsor.terms import Variable
+from funsor.sum_product import MarkovProduct
+from funsor.interpretations import lazy, reflect, normalize
+from funsor.interpreter import reinterpret
+names, step, T, n = {names}, {step}, {T}, {n}
+data = np.array({data}, dtype=np.float64).reshape((T,) + (n,) * (len(names) - 1))
+trans = Tensor(data, OrderedDict((x, Bint[T] if x == names[0] else Bint[n]) for x in names))
+with {mode}:
+    t = MarkovProduct(ops.add, ops.mul, trans, Variable(names[0], Bint[T]), step)
+got = reinterpret(t)
+want = MarkovProduct(ops.add, ops.mul, trans, Variable(names[0], Bint[T]), step)
+order = tuple(want.inputs)
+print(got.align(order).data, want.data)
+FAILS = not np.allclose(got.align(order).data, want.data)
+"""
+
+
+def pairs_stream(ctx):
+    """Binders whose bound names come in PAIRS / ordered lists: MarkovProduct with 2-3 step pairs {prev: curr} over
+    equal state domains, names in EVERY pairing (so sorting the prev names and the curr names separately would pair
+    them differently); Scatter with two (destination, index) pairs.  lazy / reflect / normalize + reinterpret vs the
+    eager build and the brute-force chain product."""
+    rng = ctx.rng
+    quick = ctx.tier == "quick"
+    pool = POOL + SPOOL + ["r", "s"]
+    n = 2
+    combos = []
+    for npairs in (2, 3):
+        perms = list(itertools.permutations(pool, 2 * npairs))
+        rng.shuffle(perms)
+        combos += [(npairs, pm) for pm in perms[:(120 if quick else 600) // (1 if npairs == 2 else 4)]]
+    for npairs, pm in combos:
+        prevs, currs = list(pm[:npairs]), list(pm[npairs:])
+        step = dict(zip(prevs, currs))
+        T = rng.choice([2, 3])
+        tname = rng.choice([x for x in pool + ["t"] if x not in pm])
+        # canonical data: axes (time, prevs…, currs…)
+        canon = np.array([rng.choice([0., 1., 1., 2., 3.]) for _ in range(T * n ** (2 * npairs))]).reshape((T,) + (n,) * (2 * npairs))
+        M = [canon[k].reshape(n ** npairs, n ** npairs) for k in range(T)]
+        prod = M[0]
+        for k in range(1, T):
+            prod = prod @ M[k]
+        want = prod.reshape((n,) * (2 * npairs))
+        # the Tensor's inputs in a shuffled order
+        axes = list(range(1, 2 * npairs + 1))
+        rng.shuffle(axes)
+        canon_names = prevs + currs
+        names = [tname] + [canon_names[a - 1] for a in axes]
+        data = np.transpose(canon, [0] + axes)
+        trans = Tensor(data, OrderedDict((x, Bint[T] if x == tname else Bint[n]) for x in names))
+        if sorted(prevs) != prevs or [step[x] for x in sorted(prevs)] != sorted(currs):
+            ctx.count("pairs:markov:sorted-orders-disagree")
+        order = [(x, n) for x in canon_names]
+        for mode in ("eager", "lazy", "reflect", "normalize"):
+            try:
+                if mode == "eager":
+                    got = MarkovProduct(ops.add, ops.mul, trans, Variable(tname, Bint[T]), step)
+                    nm_ = None
+                else:
+                    with {"lazy": lazy, "reflect": reflect, "normalize": normalize}[mode]:
+                        t = MarkovProduct(ops.add, ops.mul, trans, Variable(tname, Bint[T]), step)
+                    nm_ = check_names(t, canon_names, set(), exact_inputs=True) if isinstance(t, MarkovProduct) else None
+                    got = reinterpret(t)
+            except DECLINE as e:
+                ctx.count(f"pairs:markov:{mode}:declined:{type(e).__name__}")
+                continue
+            bad = None
+            if nm_:
+                bad = f"{nm_[0]}: {nm_[1]}"
+            elif not isinstance(got, Tensor):
+                ctx.count(f"pairs:markov:{mode}:lazy-result")
+                continue
+            elif set(got.inputs) != set(canon_names):
+                bad = f"inputs {sorted(got.inputs)} != {sorted(canon_names)}"
+            elif not np.array_equal(futil.table(got, order), want):
+                bad = f"value {futil.table(got, order).tolist()} != chain product {want.tolist()}"
+            if bad:
+                ctx.fail("input", "C05.markov-step-pairs", witness={"step": step, "time": tname, "T": T, "names": names, "mode": mode},
+                         expected="chain product of the joint transition matrices", got=bad[:500],
+                         python=PAIRS_PY.format(names=names, step=step, T=T, n=n, data=data.reshape(-1).tolist(),
+                                                mode=mode if mode != "eager" else "lazy"))
+                break
+            ctx.count(f"pairs:markov:{mode}:value")
+        ctx.case(nontrivial_key=repr((pm, T)))
+    # Scatter with two (destination, index) pairs
+    for _ in range(30 if quick else 200):
+        s1, s2, d1, d2 = rng.sample(pool, 4)
+        p1, p2 = list(range(n)), list(range(n))
+        rng.shuffle(p1); rng.shuffle(p2)
+        src = np.array([rng.choice([1., 2., 3., 5.]) for _ in range(n * n)]).reshape(n, n)
+        want = np.zeros((n, n))
+        for a in range(n):
+            for b in range(n):
+                want[p1[a], p2[b]] = src[a, b]
+        pairs = ((d1, Tensor(np.array(p1), OrderedDict([(s1, Bint[n])]), n)), (d2, Tensor(np.array(p2), OrderedDict([(s2, Bint[n])]), n)))
+        if rng.random() < 0.5:
+            pairs = pairs[::-1]
+        source = Tensor(src, OrderedDict([(s1, Bint[n]), (s2, Bint[n])]))
+        rv = frozenset({Variable(s1, Bint[n]), Variable(s2, Bint[n])})
+        for mode in ("eager", "lazy", "reflect"):
+            try:
+                if mode == "eager":
+                    got = Scatter(ops.add, pairs, source, rv)
+                else:
+                    with {"lazy": lazy, "reflect": reflect}[mode]:
+                        t = Scatter(ops.add, pairs, source, rv)
+                    got = reinterpret(t)
+            except DECLINE as e:
+                ctx.count(f"pairs:scatter:{mode}:declined:{type(e).__name__}")
+                continue
+            if isinstance(got, Tensor):
+                if set(got.inputs) != {d1, d2} or not np.array_equal(futil.table(got, [(d1, n), (d2, n)]), want):
+                    ctx.fail("input", "C05.scatter-pairs", witness={"src": [s1, s2], "dest": [d1, d2], "perm": [p1, p2], "mode": mode},
+                             expected=str(want.tolist()), got=f"{list(got.inputs)} {np.asarray(got.data).tolist()}", python=None)
+                    break
+                ctx.count(f"pairs:scatter:{mode}:value")
+        ctx.case()
+
+
 def simsubs_stream(ctx):
     """SIMULTANEOUS substitution into ground Tensors / eager results: the keys of one call are binders of that call.
     Every pattern {key a renamed (Variable / Slice) onto the name of another key b of the same call, b replaced by a
@@ -2782,6 +2906,7 @@ def correspond(ctx):
     simsubs_stream(ctx)
     onesub_stream(ctx)
     rebuild_stream(ctx)
+    pairs_stream(ctx)
     fusion_stream(ctx)
     clean_stream(ctx, 600 if quick else 5000)
     extras_stream(ctx, 80 if quick else 600)
